@@ -313,7 +313,8 @@ func (c15) Exec(sc *sim.Scenario, env *sim.Env) *sim.Violation {
 	if capacity > 1<<16 {
 		capacity = 1 << 16
 	}
-	e := asm.NewEmitter(make([]byte, capacity), true)
+	target, guard := mkTarget(capacity, sc.Seed&2 == 2)
+	e := asm.NewEmitter(target, true)
 	m := newAsmModel(true, capacity, true)
 	refusedSoFar := false
 	for i, op := range sc.Ops {
@@ -388,6 +389,9 @@ func (c15) Exec(sc *sim.Scenario, env *sim.Env) *sim.Violation {
 		obsSnap(env, after)
 		if v := accessorViolation(after, i, op); v != nil {
 			return v
+		}
+		if !guardIntact(guard) {
+			return &sim.Violation{Oracle: "wrote_beyond_target", Step: i, Msg: fmt.Sprintf("op %s: bytes behind the target slice were written", op)}
 		}
 		if panicked != (out.Refused != "") {
 			return &sim.Violation{Oracle: "refusal_mismatch", Step: i, Msg: fmt.Sprintf("op %s: model refused=%q, library panicked=%v (%s)", op, out.Refused, panicked, msg)}
